@@ -59,8 +59,15 @@ pub fn unify(state: &mut TypeCheckerState, watchdog: &DynWatchdog) -> Result<()>
     let polling_interval = watchdog.poll_every();
     let mut counter = 0;
 
+    // Cyclic evidence can re-derive, every round, exactly the judgements that the round
+    // has just folded away. Such a round leaves the forest as it found it and would repeat
+    // forever, so when we see one we fold a final time without re-applying its output.
+    let mut final_pass = false;
+
     // Then, we loop until we stop making progress.
     loop {
+        let forest_before = forest.clone();
+
         // Create the set of new equalities.
         let mut all_equalities: HashSet<Equality> = HashSet::new();
         let mut all_judgements: HashSet<Judgement> = HashSet::new();
@@ -116,6 +123,12 @@ pub fn unify(state: &mut TypeCheckerState, watchdog: &DynWatchdog) -> Result<()>
             forest.set_data(&ty_var, InferenceSet::from([current]));
         }
 
+        // If this was the final pass every set now holds a single expression and there is
+        // nothing new to apply
+        if final_pass {
+            break;
+        }
+
         // When we get to the end of that loop, we need to insert the new type variables
         // into the forest so we can add any inferences involving them
         for var in all_new_ty_vars {
@@ -139,6 +152,9 @@ pub fn unify(state: &mut TypeCheckerState, watchdog: &DynWatchdog) -> Result<()>
         if !made_progress {
             break;
         }
+
+        // A round that changed nothing can only repeat itself
+        final_pass = forest == forest_before;
     }
 
     state.set_result(forest);
